@@ -85,7 +85,7 @@ func famConcurrent(sc *scn.Scenario, em func(vt.Ev)) {
 	native := 13 // the first 13 queries of the basket are evaluated natively
 	queryOf := func(client int) int {
 		switch mix {
-		case "same":
+		case "same", "samecancel":
 			return (first - 1) % native
 		case "samefallback":
 			return native + (first-1)%(len(basket)-native)
@@ -103,7 +103,12 @@ func famConcurrent(sc *scn.Scenario, em func(vt.Ev)) {
 	}
 	// every client asks with a lookback delta of its own (none, 1 tick, 4 ticks: promql.QueryOpts are per query),
 	// and every other scenario gives the engines the list of all optimizers explicitly
-	qlbOf := func(client int) int64 { return []int64{0, 1, 4}[client%3] }
+	qlbOf := func(client int) int64 {
+		if mix == "samecancel" {
+			return 0 // identical in every respect
+		}
+		return []int64{0, 1, 4}[client%3]
+	}
 	optimizers := "default"
 	if h := fnv.New32a(); true {
 		h.Write([]byte(sc.ID))
@@ -194,8 +199,10 @@ func famConcurrent(sc *scn.Scenario, em func(vt.Ev)) {
 				qs := *sc
 				qs.Q = basket[qi]
 				qs.QLB = qlbOf(c)
-				if mix == "cancelrace" {
+				if mix == "cancelrace" || (mix == "samecancel" && c%2 == 0) {
 					// Cancel() from another goroutine while Exec runs; a cancelled run has no result to compare
+					// (samecancel: every client runs the very same query; the even ones cancel theirs, which is
+					// no business of the odd ones)
 					if qry, err := run.Create(eng, store, &qs); err == nil {
 						done := make(chan struct{})
 						go func() { time.Sleep(time.Duration(c%5) * 10 * time.Microsecond); qry.Cancel(); close(done) }()
